@@ -19,24 +19,33 @@ NoAns == [got |-> FALSE, echo |-> FALSE, sid |-> "", type |-> "", num |-> 0, msc
 NoMscc(c, echo) == [got |-> TRUE, echo |-> echo, sid |-> IF echo THEN c.sid ELSE "", type |-> IF echo THEN c.type ELSE "",
                     num |-> IF echo THEN c.num ELSE 0, mscc |-> FALSE, granted |-> <<>>, fui |-> FALSE]
 
+\* the stored balance is an int64 in the code: results outside -2^63 .. 2^63-1 wrap (two's complement).  The property
+\* clauses that speak about exact amounts apply when the exact result fits (Fits63); the wrap keeps the as-is model in
+\* step with the code elsewhere.
+P64 == [neg |-> FALSE, mag |-> <<0, 0, 0, 0, 16>>]
+Top63 == [neg |-> FALSE, mag |-> <<32767, 32767, 32767, 32767, 7>>]
+Bot63 == [neg |-> TRUE, mag |-> <<0, 0, 0, 0, 8>>]
+W64(x) == IF SCmp(x, Top63) > 0 THEN SSub(x, P64) ELSE IF SCmp(x, Bot63) < 0 THEN SAdd(x, P64) ELSE x
+
 HandleCCR(db, c) ==
-  IF c.key \notin DOMAIN db THEN [db |-> db, ans |-> NoAns]          \* no document: silently dropped
+  IF c.key \notin DOMAIN db \/ c.form = "e164"
+    THEN [db |-> db, ans |-> NoAns]     \* no document -- or a subscriber not identified by an IMSI -- : silently dropped
   ELSE
   LET q   == db[c.key]
       amt == [neg |-> FALSE, mag |-> c.amt]
   IN
   CASE c.action = "check"   -> [db |-> db, ans |-> NoMscc(c, ~DEV_EchoOnlyOnDebit)]
     [] c.action = "enquiry" -> [db |-> db, ans |-> NoMscc(c, ~DEV_EchoOnlyOnDebit)]
-    [] c.action = "refund"  -> [db |-> [db EXCEPT ![c.key] = SAdd(q, amt)], ans |-> NoMscc(c, ~DEV_EchoOnlyOnDebit)]
+    [] c.action = "refund"  -> [db |-> [db EXCEPT ![c.key] = W64(SAdd(q, amt))], ans |-> NoMscc(c, ~DEV_EchoOnlyOnDebit)]
     [] c.action = "debit" ->
          IF c.type \in {"initial", "update"} THEN
            LET exceeds == SCmp(amt, q) > 0
                g == IF exceeds THEN q ELSE amt
-           IN [db |-> [db EXCEPT ![c.key] = SSub(q, g)],
+           IN [db |-> [db EXCEPT ![c.key] = W64(SSub(q, g))],
                ans |-> [got |-> TRUE, echo |-> TRUE, sid |-> c.sid, type |-> c.type, num |-> c.num, mscc |-> TRUE,
                         granted |-> g.mag, fui |-> exceeds]]
          ELSE IF c.type = "termination" THEN
-           [db |-> [db EXCEPT ![c.key] = SSub(q, amt)], ans |-> NoMscc(c, TRUE)]
+           [db |-> [db EXCEPT ![c.key] = W64(SSub(q, amt))], ans |-> NoMscc(c, TRUE)]
          ELSE [db |-> db, ans |-> NoMscc(c, TRUE)]
 
 -----------------------------------------------------------------------------
@@ -44,7 +53,10 @@ HandleCCR(db, c) ==
    TRUE when the clause holds or does not apply. *)
 Max63 == <<32767, 32767, 32767, 32767, 7>>      \* 2^63 - 1
 Fits63(x) == MCmp(x.mag, Max63) <= 0
-Known(db, c) == c.key \in DOMAIN db
+\* c.form: "plain" | "e164" (Subscription-Id-Type E.164: no such subscriber) | "both" (the request carries the other
+\* unit AVP as well -- Used-Service-Unit next to the requested units of a reservation, and vice versa -- which the
+\* statement gives no meaning: grants, debits and refunds are as without it)
+Known(db, c) == c.key \in DOMAIN db /\ c.form # "e164"
 IsReserve(c) == c.action = "debit" /\ c.type \in {"initial", "update"}
 NonNeg(x) == ~SIsNeg(x)
 
